@@ -226,3 +226,177 @@ Proof.
   cbn [bind omap]. rewrite !map_app. cbn [map app].
   rewrite chmask_enc_link by assumption. rewrite !lxor_shl4_link by lia. reflexivity.
 Qed.
+
+(* ---- CFList (Frame/Model.v) ---------------------------------------------- *)
+
+Module FM := LW.Frame.Model.
+
+Lemma pad_to_firstn {A} (d : A) : forall n k l, (n <= k)%nat -> pad_to d n l = firstn n (l ++ repeat d k).
+Proof.
+  induction n as [|n IH]; intros k l Hk; [reflexivity|].
+  destruct l as [|a l]; cbn [pad_to app].
+  - destruct k as [|k]; [lia|]. cbn [repeat firstn]. f_equal.
+    rewrite (IH k []) by lia. reflexivity.
+  - cbn [firstn]. f_equal. apply IH. lia.
+Qed.
+
+(* the accumulating loop of CFListChannelPayload.MarshalBinary *)
+Definition cf_step (acc : outcome (list N)) (f : N) : outcome (list N) :=
+  do out <- acc;
+  if negb (f mod 100 =? 0)%N then Err else
+  if (16777215 <? f / 100)%N then Err else
+  Ok (out ++ firstn 3 (le_bytes 4 (f / 100)%N)).
+
+Lemma cf_step_err fs : fold_left cf_step fs Err = Err.
+Proof. induction fs; cbn [fold_left cf_step bind]; auto. Qed.
+
+Lemma cf_freq3_link f : 0 <= f < 4294967296 ->
+  cf_freq3 f = zs (cf_step (Ok []) (Z.to_N f)).
+Proof.
+  intros Hf. unfold cf_freq3, cf_step, zs. cbn [bind].
+  destruct (f mod 100 =? 0) eqn:E2; destruct (Z.to_N f mod 100 =? 0)%N eqn:E2'; try lia; cbn [negb]; [|reflexivity].
+  destruct (f / 100 >? 16777215) eqn:E1; destruct (16777215 <? Z.to_N f / 100)%N eqn:E1'; try lia; [reflexivity|].
+  cbn [omap bind app]. replace (Z.to_N f / 100)%N with (Z.to_N (f / 100)) by lia.
+  change (firstn 3 (le_bytes 4 (Z.to_N (f / 100)))) with (MC.freq3 (Z.to_N (f / 100))).
+  rewrite freq3_link by lia. reflexivity.
+Qed.
+
+Lemma cf_fold_link fs : Forall (fun f => 0 <= f < 4294967296) fs -> forall acc,
+  zs (fold_left cf_step (map Z.to_N fs) (Ok acc))
+  = (do r <- concat_outcomes (map cf_freq3 fs); Ok (map Z.of_N acc ++ r)).
+Proof.
+  induction 1 as [|f fs Hf _ IH]; intros acc.
+  - cbn. now rewrite app_nil_r.
+  - cbn [map fold_left concat_outcomes]. rewrite (cf_freq3_link f Hf).
+    unfold cf_step at 2 3. cbn [bind].
+    destruct (negb (Z.to_N f mod 100 =? 0)%N); [now rewrite cf_step_err|].
+    destruct (16777215 <? Z.to_N f / 100)%N; [now rewrite cf_step_err|].
+    rewrite IH. unfold zs. cbn [omap bind app].
+    destruct (concat_outcomes (map cf_freq3 fs)); cbn [bind]; try reflexivity.
+    now rewrite map_app, <- app_assoc.
+Qed.
+
+Definition cflist_to_model (c : Channels.cflist) : FM.cflist :=
+  match c with
+  | CFChannels fs => FM.mkCFList (FM.CFPChannels (map Z.to_N fs)) 0
+  | CFMasks ms => FM.mkCFList (FM.CFPMasks ms) 1
+  end.
+
+Definition cflist_domain (c : Channels.cflist) : Prop :=
+  match c with
+  | CFChannels fs => Forall (fun f => 0 <= f < 4294967296) fs
+  | CFMasks ms => Forall (fun m => length m = 16%nat) ms
+  end.
+
+Lemma concat_masks_link ms : Forall (fun m => length m = 16%nat) ms ->
+  map Z.of_N (concat (map FM.chmask_bytes ms)) = concat (map chmask_marshal ms).
+Proof.
+  induction 1 as [|m ms Hm _ IH]; [reflexivity|].
+  cbn [map concat]. rewrite map_app, IH. unfold FM.chmask_bytes. now rewrite chmask_enc_link.
+Qed.
+
+Lemma map_firstn {A B} (f : A -> B) n l : map f (firstn n l) = firstn n (map f l).
+Proof. revert l; induction n; intros [|a l]; cbn; f_equal; auto. Qed.
+
+Lemma map_repeat' {A B} (f : A -> B) a n : map f (repeat a n) = repeat (f a) n.
+Proof. induction n; cbn; f_equal; auto. Qed.
+
+Lemma cflist_enc_link c : cflist_domain c ->
+  cflist_marshal c = zs (FM.cflist_marshal (cflist_to_model c)).
+Proof.
+  destruct c as [fs|ms]; cbn [cflist_domain cflist_to_model]; intros Hd;
+    unfold cflist_marshal, FM.cflist_marshal, FM.cfpayload_marshal; cbn [FM.cf_payload FM.cf_type].
+  - change (fold_left _ (map Z.to_N fs) (Ok [])) with (fold_left cf_step (map Z.to_N fs) (Ok [])).
+    pose proof (cf_fold_link fs Hd []) as H. cbn [map app] in H.
+    destruct (concat_outcomes (map cf_freq3 fs)) as [b| | |] eqn:E; cbn [bind] in H |- *;
+      destruct (fold_left cf_step (map Z.to_N fs) (Ok [])) as [b'| | |]; cbn [zs omap bind] in H |- *; try discriminate H; try reflexivity.
+    injection H as H. subst b. rewrite map_app, map_firstn, map_app, map_repeat'. cbn [map].
+    change (Z.of_N (0 mod 256)) with 0. change (Z.of_N 0) with 0.
+    now rewrite (pad_to_firstn 0 15 16) by lia.
+  - destruct (6 <? length ms)%nat; [reflexivity|]. cbn [bind zs omap].
+    rewrite map_app, map_firstn, map_app, map_repeat', concat_masks_link by assumption. cbn [map].
+    change (Z.of_N (1 mod 256)) with 1. change (Z.of_N 0) with 0.
+    now rewrite (pad_to_firstn 0 15 16) by lia.
+Qed.
+
+(* ---- CFList decoder -------------------------------------------------------- *)
+
+From LW Require Mac.DecProofs.
+
+Lemma val_bits_testbit : forall k v,
+  val_bits k v = map (fun i => Z.testbit v (Z.of_nat i)) (seq 0 k).
+Proof.
+  induction k as [|k IH]; intros v; [reflexivity|].
+  cbn [val_bits seq map]. f_equal.
+  rewrite IH, <- seq_shift, map_map. apply map_ext. intros i.
+  rewrite Nat2Z.inj_succ. apply Z.div2_bits. lia.
+Qed.
+
+Lemma mask_dec_link a b : (a < 256)%N -> (b < 256)%N ->
+  val_bits 16 (Z.of_N a + 256 * Z.of_N b) = FM.dec_chmask_list [a; b].
+Proof.
+  intros Ha Hb. unfold FM.dec_chmask_list, MC.dec_chmask. cbn [length Nat.eqb le_val].
+  rewrite val_bits_testbit. cbn [seq map].
+  replace (Z.of_N a + 256 * Z.of_N b) with (Z.of_N (a + 256 * (b + 256 * 0))) by lia.
+  repeat (f_equal; [rewrite LW.Mac.DecProofs.land_pow2_testbit, <- N2Z.inj_testbit; reflexivity|]).
+  reflexivity.
+Qed.
+
+Lemma all_false_existsb m : all_false m = negb (existsb (fun x => x) m).
+Proof. induction m as [|[|] m IH]; cbn; auto. Qed.
+
+Lemma masks_loop_link : forall fuel data pending acc, bytesN data -> (length data < 2 * fuel)%nat ->
+  FM.masks_loop data fuel pending acc = acc ++ masks_from (map Z.of_N data) pending.
+Proof.
+  induction fuel as [|fuel IH]; intros data pending acc Hb Hl; [lia|].
+  destruct data as [|a [|b rest]]; cbn [FM.masks_loop map masks_from]; try now rewrite app_nil_r.
+  unfold bytesN in Hb. apply Forall_cons_iff in Hb. destruct Hb as [Ha Hb].
+  apply Forall_cons_iff in Hb. destruct Hb as [Hb Hr].
+  rewrite (mask_dec_link a b Ha Hb), all_false_existsb.
+  cbn [length] in Hl.
+  destruct (existsb (fun x => x) (FM.dec_chmask_list [a; b])); cbn [negb].
+  - rewrite IH by (assumption || lia). now rewrite <- !app_assoc.
+  - apply IH; [assumption|lia].
+Qed.
+
+Definition cflist_of_model (l : FM.cflist) : Channels.cflist :=
+  match FM.cf_payload l with
+  | FM.CFPChannels chs => CFChannels (map Z.of_N chs)
+  | FM.CFPMasks ms => CFMasks ms
+  | FM.CFPNil => CFMasks []
+  end.
+
+Lemma firstn_14_15 {A} (l : list A) : firstn 14 (firstn 15 l) = firstn 14 l.
+Proof. rewrite firstn_firstn. reflexivity. Qed.
+
+Lemma masks_from_drop_last : forall (l : list Z) pending x, Nat.even (length l) = true ->
+  masks_from (l ++ [x]) pending = masks_from l pending.
+Proof.
+  fix IH 1. intros [|a [|b r]] pending x He; try reflexivity; try discriminate He.
+  cbn [app masks_from]. cbn [length Nat.even] in He.
+  destruct (all_false (val_bits 16 (a + 256 * b))); [apply IH; assumption|].
+  now rewrite IH.
+Qed.
+
+Lemma cflist_dec_link bs : bytesN bs ->
+  cflist_unmarshal (map Z.of_N bs) = omap cflist_of_model (FM.cflist_unmarshal bs).
+Proof.
+  intros Hb. unfold cflist_unmarshal, FM.cflist_unmarshal. rewrite map_length.
+  destruct (Nat.eqb (length bs) 16) eqn:L; cbn [negb]; [|reflexivity].
+  apply PeanoNat.Nat.eqb_eq in L.
+  do 16 (destruct bs as [|? bs]; [discriminate L|]). destruct bs; [|discriminate L]. clear L.
+  cbn [map nth]. 
+  destruct (n14 =? 1)%N eqn:T; destruct (Z.of_N n14 =? 1) eqn:T'; try lia; cbn [omap bind cflist_of_model FM.cf_payload].
+  - f_equal. f_equal. rewrite firstn_14_15. cbn [firstn].
+    rewrite masks_loop_link; [| |cbn; lia].
+    + cbn [app map].
+      change [Z.of_N n; Z.of_N n0; Z.of_N n1; Z.of_N n2; Z.of_N n3; Z.of_N n4; Z.of_N n5; Z.of_N n6; Z.of_N n7;
+              Z.of_N n8; Z.of_N n9; Z.of_N n10; Z.of_N n11; Z.of_N n12; Z.of_N n13]
+        with ([Z.of_N n; Z.of_N n0; Z.of_N n1; Z.of_N n2; Z.of_N n3; Z.of_N n4; Z.of_N n5; Z.of_N n6; Z.of_N n7;
+               Z.of_N n8; Z.of_N n9; Z.of_N n10; Z.of_N n11; Z.of_N n12] ++ [Z.of_N n13]).
+      now rewrite masks_from_drop_last by reflexivity.
+    + unfold bytesN in *. repeat (apply Forall_cons_iff in Hb; destruct Hb as [? Hb]).
+      repeat (constructor; try assumption).
+  - cbn [firstn triples map skipn Nat.mul Nat.add le_val unle3]. f_equal. f_equal.
+    repeat (f_equal; try lia).
+Qed.
